@@ -155,12 +155,12 @@ pub fn canon_decoded(d: &Decoded) -> String {
                 r.ts,
                 hex(&r.name),
                 v,
-                r.cells.iter().map(|c| match c { Some(v) => hex(v), None => "~".into() }).collect::<Vec<_>>().join(",")
+                r.cells.iter().map(|c| match c { Some(v) => format!("x{}", hex(v)), None => "~".into() }).collect::<Vec<_>>().join(",")
             )
         })
         .collect::<Vec<_>>()
         .join("/");
-    format!("cols={}|rows={}", d.cols.iter().map(|c| hex(c)).collect::<Vec<_>>().join(","), rows)
+    format!("cols={}|rows={}", d.cols.iter().map(|c| format!("x{}", hex(c))).collect::<Vec<_>>().join(","), rows)
 }
 
 pub fn canon_batch(b: &RecordBatch) -> String {
